@@ -178,6 +178,26 @@ func runC02(c *core.Ctx) {
 		if pn, msg := core.Guard(func() { ok, err = libValidateMIC(phy, up, p) }); pn || err != nil || !ok {
 			c.Violate("C02|validate-own-mic|"+dir, "Validate rejects the MIC Set just wrote: ok=%v err=%v %s", ok, err, msg)
 		}
+		// a Set call that cannot succeed (the frame is momentarily unserialisable: 16+ bytes of FOpts)
+		// reports the error and leaves the frame, including the MIC it carries, as it was
+		if i%5 == 0 {
+			mp := phy.MACPayload.(*lorawan.MACPayload)
+			keep := mp.FHDR.FOpts
+			mp.FHDR.FOpts = []lorawan.Payload{&lorawan.DataPayload{Bytes: r.Bytes(16 + r.Intn(4))}}
+			c.Eval(2)
+			var e2 error
+			core.Guard(func() { e2 = libSetMIC(&phy, up, p) })
+			mp.FHDR.FOpts = keep
+			if e2 == nil {
+				c.Violate("C02|set-on-unserialisable-frame|"+dir, "Set%sDataMIC reports success on a frame with more than 15 bytes of FOpts", dir)
+			} else if phy.MIC != setMIC {
+				c.Violate("C02|failed-set-changed-mic|"+dir, "a failing Set%sDataMIC (%v) changed the MIC of the frame from %x to %x", dir, e2, [4]byte(setMIC), [4]byte(phy.MIC))
+				phy.MIC = setMIC
+			}
+			if ok2, e3 := libValidateMIC(phy, up, p); e3 != nil || !ok2 {
+				c.Violate("C02|validate-after-failed-set|"+dir, "after a failed Set on the same object (and the cause undone) Validate gives ok=%v err=%v", ok2, e3)
+			}
+		}
 		// cmacF check
 		if up {
 			cf := spec.UplinkCMACF(p.fKey, d.Spec.DevAddr, d.Spec.FCnt, d.Spec.Msg())
